@@ -4,28 +4,28 @@ import json, subprocess
 CLAIMED = {
  "C02": {
   "level": "exploration",
-  "technique": "bounded-exhaustive operand-tuple enumeration on the real code (all 256^2 pairs / 64^3..256^3 triples x 6 orders x thread configs), model-table oracle",
+  "technique": "bounded-exhaustive operand-tuple enumeration on the real code (all 256^2 pairs / 64^3..256^3 triples x 6 orders x thread configs; also through the edge-level entry points, after every reordering / add_vars / collection on a sparse live set, and in one session interleaved with node creation in a second manager), model-table oracle",
   "text": "Every operand tuple over the 256 three-variable functions is executed on the real library for every variable order and thread configuration and compared with a truth-table model through an independent interpreter of the stored diagram; this is a complete enumeration of the stated finite space, not a sample.",
   "note": "index backend only (pointer backend: C20); operands over >4 variables not enumerated; harness interpreter and builder trusted (cross-checked against each other and eval)",
   "ref": "3/C02"
  },
  "C04": {
   "level": "exploration",
-  "technique": "bounded-exhaustive enumeration on the real code: all functions x all variable subsets / literal cubes / 13^3 replacement vectors x 6 orders, substitution-reuse histories, all ordered pairs of restrict/quantify requests on one cache; truth-table oracle; loom exploration (all interleavings incl. weak-memory behaviours) of the substitution id generator, code derived from the source text at build time",
+  "technique": "bounded-exhaustive enumeration on the real code: all functions x all variable subsets / literal cubes / 13^3 replacement vectors x 6 orders, substitution-reuse histories, all ordered pairs of restrict/quantify requests on one cache, persistent variable sets and substitution objects while operands die and slots are recycled; truth-table oracle; loom exploration (all interleavings incl. weak-memory behaviours) of the substitution id generator, code derived from the source text at build time",
   "text": "All 256 functions x all 8 variable subsets (3 quantifiers), all 27 restriction cubes, all 8 inner operators x pairs for the combined forms and all 2197 replacement vectors are executed for every order with 1 and 2 workers; substitution objects are reused and alternated with gc in between. Complete enumeration of the n=3 space (n=4 unary block in thorough).",
   "note": "ZBDD: restrict only (the library offers nothing else); operands over >4 variables not enumerated",
   "ref": "3/C04"
  },
  "C09": {
   "level": "exploration",
-  "technique": "bounded-exhaustive enumeration on the real code: all 256 families / 65536 pairs x 6 orders, make_node over all admissible (var,hi,lo), add_vars histories; set-family model oracle",
+  "technique": "bounded-exhaustive enumeration on the real code: all 256 families / 65536 pairs x 6 orders, make_node over all admissible (var,hi,lo), every set operation after every reordering, add_vars histories incl. the full-family operations around them; set-family model oracle",
   "text": "Every family over 3 variables (and every pair) is run through every set operation under every order; make_node is called for every admissible argument triple; variables are added twice and all old handles re-read as families and as Boolean functions over the larger domain.",
   "note": "families over >4 variables not enumerated",
   "ref": "3/C09"
  },
  "C13": {
   "level": "exploration",
-  "technique": "bounded-exhaustive enumeration on the real code: 256 functions x 6 orders x all choice vectors x all 27 literal sets x 64 RNG seeds (exact stream replay); cube predicted from the truth-table model",
+  "technique": "bounded-exhaustive enumeration on the real code: 256 functions x 6 orders x all choice vectors x all 27 literal sets x 64 RNG seeds (exact stream replay), one count cache across reorderings, functions alone in their manager (n=3 all, n=4 every third); cube predicted from the truth-table model",
   "text": "For every function, order, per-level choice vector and literal set the exact expected cube is derived from the model (forced / don't-care / choice) and compared, the choice-closure protocol is recorded and checked, and uniform picking is replayed draw by draw against models-proportional branch probabilities.",
   "note": "uniformity is established by exact agreement with the model's branch probabilities, not by statistics; n<=4",
   "ref": "3/C13"
@@ -39,7 +39,7 @@ CLAIMED = {
  },
  "C11": {
   "level": "exploration",
-  "technique": "bounded-exhaustive operand-tuple enumeration on the real code (n=1: all 27^2 pairs and 27^3 triples; n=2: all 19683 functions x representative set, thorough all 19683^2 pairs) against literal three-valued truth tables",
+  "technique": "bounded-exhaustive operand-tuple enumeration on the real code (n=1: all 27^2 pairs and 27^3 triples; n=2: all 19683 functions x representative set, thorough all 19683^2 pairs; eval of every variable and variable pair on a 40-variable manager) against literal three-valued truth tables",
   "text": "Every operand tuple over the one-variable three-valued functions and (quick) every two-variable function against a 60-function set, in both orders, is executed and compared with tables typed in from the property statement; constants, var, not, cofactors and eval under all three-valued assignments included.",
   "note": "n<=2; ite for n=2 over representative sets; index backend",
   "ref": "3/C11"
